@@ -1462,12 +1462,49 @@ func congestedNeighbour(res *core.Result, r *rand.Rand, nFrames int) {
 			}
 		}
 	}
-	time.Sleep(100 * time.Millisecond)
+	// frames of one link are read in order: once a genuine pong request sent after the flood is answered, the
+	// victim has worked off the flood (bounded wait; no answer is not a verdict by itself)
+	ab := mal.Inst.StateV.GetSession(idV.IP)
+	answered := false
+	for try := 0; try < 5 && !answered && ab != nil; try++ {
+		time.Sleep(3 * time.Millisecond)
+		id := r.Uint64() | 1
+		hdr := router.PingHeader{PingID: id, PingType: "pong", AddrHash: idM.Hash, KeyType: idM.Type, PublicKey: idM.PublicKey}
+		hd, _ := cbor.Marshal(&hdr)
+		pb, _ := cbor.Marshal(map[string]string{"msg": "ping"})
+		msg := append(append([]byte{1, byte(len(hd))}, hd...), pb...)
+		if f, err := mal.Inst.BuilderV.NewFrameV1(idM.IP, idV.IP, frame.RouterPing, nil, msg, nil); err == nil && f.Seal(ab) == nil {
+			_ = link.SendPriority(f)
+		}
+		deadline := time.After(8 * time.Second)
+	wait:
+		for {
+			select {
+			case f := <-mal.Upstream:
+				if f.MessageType() == frame.RouterPing {
+					md := f.MessageData()
+					var h router.PingHeader
+					if len(md) > 2 && int(md[1])+2 <= len(md) && cbor.Unmarshal(md[2:2+int(md[1])], &h) == nil && h.PingID == id {
+						answered = true
+					}
+				}
+				f.ReturnToPool()
+				if answered {
+					break wait
+				}
+			case <-deadline:
+				break wait
+			}
+		}
+	}
+	if answered {
+		res.Count("congested_neighbour_sentinels_answered", 1)
+	}
 	if p := panics(); len(p) > 0 {
 		res.Violate("worker-panic:congested-next-hop", fmt.Sprintf("a worker of a real router instance panicked after %d transit frames for a neighbour that had stopped reading: %s", sent, p[0]), map[string]any{"alerts": p, "frames_sent": sent, "case_id": "congested-neighbour"})
 		return
 	}
-	if stuck := stuckWorkers(); len(stuck) > 0 {
+	if stuck := stuckWorkers(); len(stuck) > 0 && !answered {
 		res.Violate("worker-stalled:congested-next-hop", fmt.Sprintf("after %d transit frames for a neighbour that had stopped reading, a frame-handling worker of the real router stays in the same non-idle stack for 1.5s: %s", sent, stuck[0]), map[string]any{"stuck": stuck, "case_id": "congested-neighbour"})
 		return
 	}
@@ -1566,17 +1603,21 @@ func stuckWorkers() []string {
 		}
 		return out
 	}
+	// four samples over 1.5 s: a worker that is merely busy (a reader working off a backlog spends most of its
+	// time in a few hot functions) is not in the very same stack every time; a stalled one is
 	a := sample()
-	if len(a) == 0 {
-		return nil
+	for k := 0; k < 3 && len(a) > 0; k++ {
+		time.Sleep(500 * time.Millisecond)
+		b := sample()
+		for gid, st := range a {
+			if b[gid] != st {
+				delete(a, gid)
+			}
+		}
 	}
-	time.Sleep(1500 * time.Millisecond)
-	b := sample()
 	var stuck []string
 	for gid, st := range a {
-		if b[gid] == st {
-			stuck = append(stuck, "goroutine "+gid+": "+st)
-		}
+		stuck = append(stuck, "goroutine "+gid+": "+st)
 	}
 	return stuck
 }
